@@ -120,7 +120,8 @@ Inductive prog :=
 | Delete (p : pexp)            (* p.unlink() / os.remove(p) *)
 | Rename (src dst : pexp)      (* os.replace(src, dst) / src.replace(dst) *)
 | Try (body handler : prog)    (* try: body  except: handler  (handler ends in Raise to re-raise) *)
-| Finally (body fin : prog).   (* try: body  finally: fin *)
+| Finally (body fin : prog)    (* try: body  finally: fin *)
+| Probe (p : pexp).            (* p.exists() whose answer only steers a data-dependent branch *)
 
 Inductive outcome := Normal | Returned | Raised.
 
@@ -153,6 +154,9 @@ Definition with_orc (s : st) (r : list nat) : st :=
 Definition logg (s : st) (q : string) : st :=
   mkst (fs s) (orc s) (stamp s) (touched s) (("G " ++ q) :: trace s) (fuel s).
 
+(* after the exception struck, the rest of the run (a handler) is not hit again *)
+Definition defuse (s : st) : st := mkst (fs s) (orc s) (stamp s) (touched s) (trace s) None.
+
 (* one file event is about to happen: None = the exception strikes now *)
 Definition tick (s : st) : option st :=
   match fuel s with
@@ -174,14 +178,14 @@ Fixpoint run (name : string) (p : prog) (s : st) : outcome * st :=
   | Skip => (Normal, s)
   | Seq a b => let '(o, s') := run name a s in
                match o with Normal => run name b s' | _ => (o, s') end
-  | Guard e => match tick s with None => (Raised, s) | Some s =>
+  | Guard e => match tick s with None => (Raised, defuse s) | Some s =>
                match fs s (peval name e) with
                | Some _ => (Raised, logg s (peval name e))
                | None => (Normal, logg s (peval name e))
                end end
-  | Create e => match tick s with None => (Raised, s) | Some s =>
+  | Create e => match tick s with None => (Raised, defuse s) | Some s =>
                 (Normal, fwrite "C " s (peval name e)) end
-  | Append e => match tick s with None => (Raised, s) | Some s =>
+  | Append e => match tick s with None => (Raised, defuse s) | Some s =>
                 (Normal, fwrite "A " s (peval name e)) end
   | If a b => match orc s with
               | [] => run name b s
@@ -196,17 +200,30 @@ Fixpoint run (name : string) (p : prog) (s : st) : outcome * st :=
                  (match o with Returned => Normal | _ => o end, s')
   | Return => (Returned, s)
   | Raise => (Raised, s)
-  | Delete e => match tick s with None => (Raised, s) | Some s =>
+  | Delete e => match tick s with None => (Raised, defuse s) | Some s =>
                 (Normal, fdelete s (peval name e)) end
-  | Rename a b => match tick s with None => (Raised, s) | Some s =>
+  | Rename a b => match tick s with None => (Raised, defuse s) | Some s =>
                   (Normal, frename s (peval name a) (peval name b)) end
   | Try body handler =>
       let '(o, s') := run name body s in
-      match o with Raised => run name handler s' | _ => (o, s') end
+      match o with
+      | Raised => run name handler s'
+      | Normal =>
+          (* an exception may still strike after the last file event of the
+             body, before the body is left: the oracle decides *)
+          match orc s' with
+          | [] => (Normal, s')
+          | c :: r => if Nat.eqb c 0 then (Normal, with_orc s' r)
+                      else run name handler (with_orc s' r)
+          end
+      | Returned => (o, s')
+      end
   | Finally body fin =>
       let '(o, s') := run name body s in
       let '(o2, s2) := run name fin s' in
       (match o2 with Normal => o | _ => o2 end, s2)
+  | Probe e => match tick s with None => (Raised, defuse s) | Some s =>
+               (Normal, logg s (peval name e)) end
   end.
 
 (* ---------- the static check ---------- *)
@@ -271,6 +288,8 @@ Fixpoint check (g : list pexp) (p : prog) : option (oset * oset) :=
       | Some (nb, rb), Some (_, rf) => Some (nb, meet rb rf)
       | _, _ => None
       end
+  (* looking is harmless and establishes nothing *)
+  | Probe _ => Some (Some g, None)
   end.
 
 Definition prog_ok (p : prog) : bool :=
@@ -293,7 +312,7 @@ Definition fs_of_list (l : list string) : fsys :=
 
 Fixpoint pexps (p : prog) : list pexp :=
   match p with
-  | Guard e | Create e | Append e | Delete e => [e]
+  | Guard e | Create e | Append e | Delete e | Probe e => [e]
   | Rename a b => [a; b]
   | Seq a b | If a b | Try a b | Finally a b => pexps a ++ pexps b
   | Loop b | Call b => pexps b
